@@ -26,7 +26,7 @@ def cfgbuild_refs(v):
 
 
 PROP = "C01"
-MODULES = ["XpmVerif.Properties.C01", "XpmVerif.Properties.C01Cache", "XpmVerif.Properties.HashSrc"]
+MODULES = ["XpmVerif.Properties.C01", "XpmVerif.Properties.C01Cache", "XpmVerif.Properties.HashSrc", "XpmVerif.Properties.C01CacheSrc"]
 GOLDEN = common.VERIF / "corpus" / "golden_identifiers.json"
 
 
@@ -37,6 +37,10 @@ def prove(ctx):
     msgs.append(argflags.generate(common.REPO, common.LEAN, probe=identlib.inherit_rule_probe(ctx)))   # Generated/ArgFlags.lean: the driver derives the argument flags with it
     ctx.notes.append(f"translator(argflags): {msgs[-1][1]}")
     ctx.notes.append(f"translator(hashflags): {msgs[0][1]}")
+    from ..translate import computesrc   # HashComputer.compute + ConfigPath -> Generated/ComputeSrc.lean (obligations: Properties/C01CacheSrc.lean)
+    msgs.append(computesrc.generate(common.REPO, common.LEAN, probe=identlib.loop_flag_probe(ctx)))
+    ctx.notes.append(f"translator(computesrc): {msgs[-1][1]}")
+    ctx.count("translator", "computesrc:" + ("translated" if msgs[-1][1].startswith("translated") else "fallback"))
     common.check_proofs(ctx, MODULES, translate_msgs=msgs)
 
 
